@@ -61,7 +61,7 @@ def features(agent, ctx):
     divided by sqrt(out_features)); returns float32 array (arms, n)."""
     layer = live_layer(agent)
     params = [p for p in layer.parameters() if p.requires_grad]
-    obs = torch.as_tensor(np.asarray(ctx), dtype=torch.float32)
+    obs = agent.preprocess_observation(ctx)      # the library's own observation conversion (property C15's subject)
     mu = agent.actor(obs)
     rows = []
     for k in range(mu.shape[0]):
@@ -70,6 +70,83 @@ def features(agent, ctx):
                           for g, p in zip(gs, params)])
         rows.append((flat / np.sqrt(layer.weight.size(0))).to(torch.float32))
     return torch.stack(rows).numpy()
+
+
+def net_out(agent, ctx):
+    with torch.no_grad():
+        return agent.actor(agent.preprocess_observation(ctx)).detach().cpu().double().numpy().reshape(-1)
+
+
+IMG = (2, 6, 6)
+DICT_KEYS = {"a": 3, "b": 2}
+
+
+def obs_space_of(case):
+    kind = case.get("space", "vector")
+    if kind == "image":
+        return spaces.Box(low=0, high=255, shape=IMG, dtype=np.uint8)
+    if kind == "dict":
+        return spaces.Dict({k: spaces.Box(low=-10, high=10, shape=(n,), dtype=np.float32) for k, n in DICT_KEYS.items()})
+    return spaces.Box(low=-10, high=10, shape=(case["cdim"],), dtype=np.float32)
+
+
+def make_ctx(case, rs, rows=None, for_learn=False):
+    """one context (one row per arm) of the case's observation space; for_learn: a float batch as train_bandits stores it"""
+    n = case["arms"] if rows is None else rows
+    kind = case.get("space", "vector")
+    if kind == "image":
+        x = rs.randint(0, 256, size=(n,) + IMG).astype(np.uint8)
+        return torch.as_tensor(x.astype(np.float32) / 255.0) if for_learn else x
+    if kind == "dict":
+        d = {k: (rs.randn(n, m) * 1.5).astype(np.float32) for k, m in DICT_KEYS.items()}
+        return {k: torch.as_tensor(v) for k, v in d.items()} if for_learn else d
+    x = (rs.randn(n, case["cdim"]) * 1.5).astype(np.float32)
+    return torch.as_tensor(x) if for_learn else x
+
+
+ARCH_METHODS = ["head_net.add_node", "head_net.remove_node", "head_net.add_layer", "head_net.remove_layer",
+                "add_latent_node", "remove_latent_node", "encoder.add_node", "encoder.remove_node",
+                "encoder.add_layer", "encoder.remove_layer", "encoder.add_channel", "encoder.remove_channel",
+                "encoder.change_kernel", "encoder.add_latent_node", "encoder.remove_latent_node",
+                "encoder.add_block", "encoder.remove_block"]
+
+
+class ScriptedArchMethod:
+    """Mutations.architecture_mutate samples the mutation method with get_architecture_mut_method(...); the harness
+    scripts that draw so that every architecture mutation method of every encoder kind is exercised."""
+
+    def __init__(self, name):
+        import agilerl.hpo.mutation as mm
+        self.mm, self.name = mm, name
+
+    def __enter__(self):
+        self.orig = self.mm.get_architecture_mut_method
+        self.mm.get_architecture_mut_method = lambda *a, **k: self.name
+        return self
+
+    def __exit__(self, *exc):
+        self.mm.get_architecture_mut_method = self.orig
+
+
+def op_kind(op, rec, lam):
+    """how an op of a history acts on the confidence matrix, judged from what was observed:
+    'hook'   — a mutation after which sigma_inv IS the freshly initialised eye/lambda (the init_params hook ran);
+    'direct' — a mutation that left sigma_inv alone (allowed by the property as long as the size still matches);
+    others by name. Re-initialising at a mutation is what the current tree does after every Mutations.mutation call, but
+    the property does not demand it, so the check does not either."""
+    k = op[0]
+    if k == "archm" and rec.get("skipped"):
+        return "learn"
+    if k in ("mut", "archm") or (k == "direct" and op[1] == "arch"):
+        sg = rec.get("sigma")
+        if sg is None:
+            return "hook"
+        n = len(sg)
+        d = 1.0 / float(lam)
+        fresh = all(x is not None and abs(x - (d if i == j else 0.0)) <= 1e-6 * d
+                    for i, row in enumerate(sg) for j, x in enumerate(row)) and rec["shape"] == [n, n]
+        return "hook" if fresh else "direct"
+    return k
 
 
 def snap(agent, with_sigma):
@@ -139,6 +216,11 @@ class CaptureBonus:
     def __exit__(self, *exc):
         torch.normal, np.argmax = self.o_normal, self.o_argmax
 
+    def values_list(self):
+        if self.values is None or not np.all(np.isfinite(self.values)):
+            return None
+        return [float(x) for x in self.values]
+
     def bonus(self, algo):
         if algo == "ts" and self.std is not None:
             return [(float(x) if np.isfinite(x) else None) for x in self.std.double().reshape(-1).numpy()]
@@ -203,11 +285,13 @@ class LoopRecorder:
                 rad = torch.matmul(torch.matmul(g32[:, None, :], S_before), g32[:, :, None])[:, 0, 0]
                 r["radicand"] = [(float(x) if np.isfinite(x) else None) for x in rad]
             r["bonus"] = cap.bonus(me.algo)
+            r["values"] = cap.values_list()
             if me.algo == "ucb" and cap.values is not None and len(cap.values) == len(mu0):
                 r["bonus"] = [(float(x) if np.isfinite(x) else None) for x in (cap.values - mu0)]
             nact = sum(1 for o in e["ops"] if o[0] == "act")
             r.update(snap(agent, nact % me.every == 0))
-            e["ops"].append(["act", None if action_mask is None else [int(x) for x in action_mask]])
+            r["mask"] = None if action_mask is None else [int(x) for x in action_mask]
+            e["ops"].append(["act", r["mask"]])
             e["trace"].append(r)
             return a
 
@@ -236,20 +320,39 @@ def make_mutations(kind, seed):
 
 def build_agent(case):
     cls = ALGOS[case["algo"]]
-    obs_space = spaces.Box(low=-10, high=10, shape=(case["cdim"],), dtype=np.float32)
+    kind = case.get("space", "vector")
+    obs_space = obs_space_of(case)
     act_space = spaces.Discrete(case["arms"])
     head = {"hidden_size": list(case["head"]), "min_mlp_nodes": 1, "max_mlp_nodes": NMAX - 1,
             "min_hidden_layers": 1, "max_hidden_layers": 3}
     if case.get("head_act"):
         head["activation"] = case["head_act"]
-    net_config = {"encoder_config": {"hidden_size": list(case["enc"]), "min_mlp_nodes": 2, "max_mlp_nodes": 12},
-                  "head_config": head}
-    if case.get("partial"):
-        net_config = {"head_config": head}      # partial configuration: default encoder
+    if case.get("head_layer_norm") is not None:
+        head["layer_norm"] = bool(case["head_layer_norm"])
+    if kind == "image":
+        net_config = {"encoder_config": {"channel_size": [3], "kernel_size": [3], "stride_size": [1]}, "head_config": head}
+    elif kind == "dict":
+        net_config = {"head_config": head}
+    elif kind == "simba":
+        net_config = {"simba": True, "encoder_config": {"hidden_size": 8, "num_blocks": 1}, "head_config": head}
+    elif kind == "default":
+        net_config = None                       # the library's defaults: output layer with 17 parameters
+    else:
+        net_config = {"encoder_config": {"hidden_size": list(case["enc"]), "min_mlp_nodes": 2, "max_mlp_nodes": 12},
+                      "head_config": head}
+        if case.get("partial"):
+            net_config = {"head_config": head}      # partial configuration: default encoder
     hp = HyperparameterConfig(lr=RLParameter(min=1e-4, max=1e-2), batch_size=RLParameter(min=4, max=32, dtype=int),
                               learn_step=RLParameter(min=1, max=8, dtype=int))
-    return cls(obs_space, act_space, hp_config=hp, net_config=net_config, gamma=case["gamma"], lamb=case["lam"],
-               batch_size=8, lr=1e-3)
+    lam, gamma = case["lam"], case["gamma"]
+    if case.get("int_params"):                  # the constructor also accepts ints for lamb / gamma
+        lam, gamma = int(lam), int(gamma)
+    kw = dict(hp_config=hp, gamma=gamma, lamb=lam, batch_size=8, lr=1e-3)
+    if kind == "custom":                        # caller-provided network (make_safe_deepcopies path)
+        from agilerl.networks.value_networks import ValueNetwork
+        net = ValueNetwork(observation_space=obs_space, encoder_config={"hidden_size": list(case["enc"])}, head_config=head)
+        return cls(obs_space, act_space, actor_network=net, **kw)
+    return cls(obs_space, act_space, net_config=net_config, **kw)
 
 
 # ------------------------------------------------------------------------------------------------
@@ -312,6 +415,64 @@ class C19(vlib.Driver):
             cases.append({"kind": "hist", "algo": algo, "arms": arms, "cdim": cdim, "lam": lam, "gamma": gamma,
                           "enc": enc, "head": head, "partial": rng.random() < 0.15, "seed": rng.randrange(10 ** 6),
                           "ops": ops, "every": 4})
+        # ---- boundary-complete structured cases (generator audit) ----------------------------------------------
+        def base(**kw):
+            d = {"kind": "hist", "algo": "ucb", "arms": 3, "cdim": 3, "lam": 2.0, "gamma": 1.0, "enc": [3], "head": [3],
+                 "partial": False, "seed": rng.randrange(10 ** 6), "every": 2}
+            d.update(kw)
+            return d
+        methods = {
+            "vector": ["head_net.add_node", "head_net.remove_node", "head_net.add_layer", "head_net.remove_layer",
+                       "add_latent_node", "remove_latent_node", "encoder.add_node", "encoder.remove_node"],
+            "image": ["head_net.add_node", "head_net.remove_node", "head_net.add_layer", "head_net.remove_layer",
+                      "add_latent_node", "remove_latent_node", "encoder.add_channel", "encoder.remove_channel",
+                      "encoder.change_kernel"],
+            "dict": ["head_net.add_node", "head_net.remove_node", "head_net.add_layer", "head_net.remove_layer",
+                     "add_latent_node", "remove_latent_node", "encoder.add_latent_node", "encoder.remove_latent_node"],
+            "simba": ["head_net.add_node", "head_net.remove_node", "head_net.add_layer", "head_net.remove_layer",
+                      "add_latent_node", "remove_latent_node", "encoder.add_node", "encoder.remove_node"],
+            "custom": ["head_net.add_node", "encoder.add_node"],
+        }
+        # every architecture mutation method of every encoder kind, before/after decisions, then clone -> mutate -> clone -> reload
+        j = 0
+        for space, ms in methods.items():
+            for meth in ms:
+                j += 1
+                if tier == "quick" and space in ("simba", "dict") and j % 2 == 0:
+                    continue            # quick tier: every second method for these two kinds (thorough: all)
+                m1 = [1, 0, 1]
+                cases.append(base(algo="ucb" if j % 2 else "ts", space=space, lam=rng.choice([0.5, 2.0]),
+                                  ops=[["act", None], ["act", m1], ["archm", meth, 1], ["act", None], ["act", m1], ["clone"],
+                                       ["archm", meth, 1], ["clone"], ["act", None],
+                                       ["reload", "load" if j % 2 else "load_checkpoint"], ["act", None]]))
+        # hard limits of add/remove node/layer on the head (the output layer's input width): at, one below, one above the bound
+        for head, meth, k in [([NMAX - 1], "head_net.add_node", 1), ([NMAX - 2], "head_net.add_node", 1), ([NMAX - 3], "head_net.add_node", 2),
+                              ([2], "head_net.remove_node", 1), ([3], "head_net.remove_node", 1), ([1], "head_net.remove_node", 1),
+                              ([2, 2, 2], "head_net.add_layer", 1), ([2], "head_net.remove_layer", 1), ([3, 2], "head_net.remove_layer", 1)]:
+            cases.append(base(algo=rng.choice(["ucb", "ts"]), head=head,
+                              ops=[["act", None], ["act", None], ["archm", meth, k], ["act", None], ["mut", "none", 1], ["act", None],
+                                   ["archm", meth, k], ["reload", "load"], ["act", None]]))
+        # chains: clone -> mutate -> clone, save right after a mutation (no learn / decision in between), reload of a clone
+        cases.append(base(algo="ucb", ops=[["act", None], ["clone"], ["mut", "arch", 1], ["clone"], ["reload", "load"], ["clone"], ["act", None],
+                                           ["mut", "param", 1], ["reload", "load_checkpoint"], ["act", None], ["direct", "act", 1],
+                                           ["reload", "load"], ["act", None]]))
+        cases.append(base(algo="ts", head=[2, 3], ops=[["mut", "arch", 2], ["reload", "load_checkpoint"], ["act", None], ["act", None], ["clone"],
+                                                       ["direct", "arch", 1], ["clone"], ["reload", "load"], ["act", None], ["learn"],
+                                                       ["mut", "rl_hp", 1], ["reload", "load"], ["act", None]]))
+        cases.append(base(algo="ucb", head=[4], ops=[["resize", "add", 1], ["reload", "load"], ["act", None], ["clone"], ["resize", "remove", 1],
+                                                     ["clone"], ["act", None], ["direct", "param", 1], ["clone"], ["act", None]]))
+        # the library's default network (output layer with 17 parameters) and an unscripted-size growth: too large for exact K,
+        # sizes compared in Coq, everything else by the oracle
+        cases.append(base(algo="ucb", space="default", cdim=4, ops=[["act", None]] * 3 + [["mut", "arch", 16], ["act", None], ["clone"], ["act", None],
+                                                                     ["reload", "load"], ["act", None]]))
+        cases.append(base(algo="ts", head=[3], ops=[["act", None], ["direct", "arch", 32], ["act", None], ["act", None]]))
+        # integer lambda / gamma, no layer norm / other activation in the head
+        cases.append(base(algo="ucb", int_params=True, lam=2.0, gamma=1.0, head_layer_norm=False, ops=[["act", None]] * 5 + [["mut", "act", 1], ["act", None]]))
+        cases.append(base(algo="ts", int_params=True, lam=3.0, gamma=2.0, head_act="Tanh", ops=[["act", [0, 1, 1]]] * 4 + [["clone"], ["act", None]]))
+        # long runs: float32 drift over many rank-one updates (small matrices, observed every 10th step)
+        for _ in range(1 if tier == "quick" else 4):
+            n_upd = 60 if tier == "quick" else 150
+            cases.append(base(algo=rng.choice(["ucb", "ts"]), head=[2], lam=rng.choice([0.5, 2.0]), every=10, ops=[["act", None]] * n_upd))
         # the real training loop (train_bandits) with and without tournament selection + mutation
         nloop = 6 if tier == "quick" else 20
         for i in range(nloop):
@@ -413,16 +574,17 @@ class C19(vlib.Driver):
             rec = {"op": op[0]}
             try:
                 if op[0] == "act":
-                    ctx = (rs.randn(case["arms"], case["cdim"]) * 1.5).astype(np.float32)
+                    ctx = make_ctx(case, rs)
                     mask = None if op[1] is None else np.array(op[1])
                     G = features(agent, ctx)
-                    with torch.no_grad():
-                        mu0 = agent.actor(torch.as_tensor(ctx)).detach().cpu().double().numpy().reshape(-1)
+                    mu0 = net_out(agent, ctx)
                     S_before = agent.sigma_inv.detach().clone()
                     with CaptureBonus() as cap:
                         a = int(agent.get_action(ctx, action_mask=mask))
                     rec["action"] = a
                     rec["bonus"] = cap.bonus(case["algo"])
+                    rec["values"] = cap.values_list()
+                    rec["mask"] = op[1]
                     if case["algo"] == "ucb" and cap.values is not None and len(cap.values) == len(mu0):
                         rec["bonus"] = [(float(x) if np.isfinite(x) else None) for x in (cap.values - mu0)]
                     rec["G"] = [[float(x) for x in row] for row in G]
@@ -432,7 +594,7 @@ class C19(vlib.Driver):
                         rec["radicand"] = [(float(x) if np.isfinite(x) else None) for x in rad]
                 elif op[0] == "learn":
                     B = 8
-                    exp = {"obs": torch.as_tensor((rs.randn(B, case["cdim"]) * 1.5).astype(np.float32)),
+                    exp = {"obs": make_ctx(case, rs, rows=B, for_learn=True),
                            "reward": torch.as_tensor(rs.randint(0, 2, size=(B, 1)).astype(np.float32))}
                     rec["loss"] = float(agent.learn(exp))
                 elif op[0] == "mut":
@@ -450,6 +612,14 @@ class C19(vlib.Driver):
                         else:
                             agent = m.architecture_mutate(agent)
                     rec["mut"] = str(agent.mut)
+                elif op[0] == "archm":
+                    if op[1] not in agent.actor.mutation_methods:
+                        rec["skipped"] = True          # this encoder kind has no such method
+                    else:
+                        m = make_mutations("none", case["seed"] + oi)
+                        with ScriptedNodes(op[2]), ScriptedArchMethod(op[1]):
+                            agent = m.architecture_mutate(agent)
+                        rec["mut"] = str(agent.mut)
                 elif op[0] == "resize":
                     old = live_layer(agent)
                     rec["old"] = layer_desc(old)
@@ -516,8 +686,15 @@ class C19(vlib.Driver):
             bonus = rec.get("bonus")
             if bonus is not None and len(bonus) == len(arms) and all(x is not None for x in bonus):
                 b = "[" + "; ".join(coq_Q(x / gamma) for x in bonus) + "]"
+        ch = "None"
+        vals = rec.get("values")
+        if rec.get("op") == "act" and vals is not None and "action" in rec:
+            mask = rec.get("mask")
+            legal = [True] * len(vals) if mask is None else [bool(x) for x in mask]
+            ch = ("(Some ([" + "; ".join(coq_Q(x) for x in vals) + "], [" + "; ".join(vlib.coq_bool(x) for x in legal)
+                  + f"], {int(rec['action'])}))")
         return (f"{{| o_numel := {rec['numel']}; o_bound := {vlib.coq_bool(rec['bound'])}; o_rows := {shape[0]}; "
-                f"o_cols := {shape[1]}; o_sigma := {sig}; o_arms := {g}; o_bonus := {b} |}}")
+                f"o_cols := {shape[1]}; o_sigma := {sig}; o_arms := {g}; o_bonus := {b}; o_choice := {ch} |}}")
 
     def coq_term(self, case, obs):
         if case["kind"] == "loop":
@@ -541,10 +718,11 @@ class C19(vlib.Driver):
         for op, rec in zip(case["ops"], obs["trace"]):
             if rec["numel"] > NMAX or max(rec["shape"]) > 64:
                 # too large for exact arithmetic in Coq: compare sizes up to here only (oracle covers the rest)
-                if op[0] == "mut" or (op[0] == "direct" and op[1] == "arch"):
+                if op_kind(op, rec, case["lam"]) == "hook":
                     ops.append(f"MutHook {self.q_layer(rec['live'])}")
                     obl.append(self.q_obs(dict(rec, sigma=None)))
                 break
+            kind = op_kind(op, rec, case["lam"])
             if op[0] == "act":
                 a = rec["action"]
                 if not (0 <= a < len(rec["G"])):
@@ -552,11 +730,11 @@ class C19(vlib.Driver):
                 ops.append("Act [" + "; ".join(coq_Q(x) for x in rec["G"][a]) + "]")
                 obl.append(self.q_obs(rec, rec["G"], float(case["gamma"])))
                 continue
-            if op[0] == "learn":
+            if kind == "learn":
                 ops.append("Learn")
-            elif op[0] == "mut" or (op[0] == "direct" and op[1] == "arch"):
+            elif kind == "hook":
                 ops.append(f"MutHook {self.q_layer(rec['live'])}")
-            elif op[0] == "direct":
+            elif kind == "direct":
                 ops.append(f"MutDirect {self.q_layer(rec['live'])}")
             elif op[0] == "resize":
                 ops.append(f"Resize {self.q_layer(rec['live'])}")
@@ -685,8 +863,8 @@ class C19(vlib.Driver):
                     A = A + np.outer(g, g)
                 updates += 1
                 check_matrix(rec, A, where, False)
-            elif op[0] == "mut" or (op[0] == "direct" and op[1] == "arch"):
-                # the registered hook re-initialises the matrix
+            elif op_kind(op, rec, lam) == "hook":
+                # the registered hook re-initialised the matrix
                 A = lam * np.eye(rec["shape"][0])
                 check_matrix(rec, A, where, True)
             elif op[0] == "resize":
@@ -737,9 +915,15 @@ class C19(vlib.Driver):
                     labs.append("loop-op=" + op[0])
             return labs
         labs.append(f"numel0={obs['init']['numel']}")
+        labs.append(f"space={case.get('space', 'vector')}")
+        for op, rec in zip(case["ops"], obs["trace"]):
+            if op[0] in ("mut", "archm", "direct"):
+                labs.append("mutation-effect=" + op_kind(op, rec, case["lam"]) + ("-resized" if rec.get("mut") and False else ""))
+                if rec.get("skipped"):
+                    labs.append("archm-skipped=" + op[1])
         nact = 0
         for op, rec in zip(case["ops"], obs["trace"]):
-            labs.append("op=" + op[0] + (":" + str(op[1]) if op[0] in ("mut", "direct", "reload") else "")
+            labs.append("op=" + op[0] + (":" + str(op[1]) if op[0] in ("mut", "direct", "reload", "archm") else "")
                         + (":masked" if op[0] == "act" and op[1] is not None else ""))
             nact += op[0] == "act"
             if rec["numel"] > NMAX:
